@@ -146,9 +146,15 @@ def check_full(ck):
     n = 0
     for m in range(0, 4):
         for s in range(0, 6):
+            # abstract evaluation of the body (assignments, if/else, returns; a result variable with a single exit is fine)
+            from fractions import Fraction as _F
+            from .. import x_tdeval as _tde
             try:
-                r = _eval_body(fi, fi.node.body, {"MAX": m, "QSIZE": s})
-            except q.NotFoldable as e:
+                _tde.run(fi.node.body, {"self.maxsize": _F(m), "self._maxsize": _F(m)}, {"self.qsize()": _F(s), "len(self._queue)": _F(s)})
+                r = None
+            except _tde.Returned as rr_:
+                r = (rr_.value,)
+            except (_tde.Unsupported, _tde.Raised) as e:
                 raise AnalysisError("%s: cannot evaluate full(): %s" % (fi.site(), e))
             if r is None:
                 raise AnalysisError("%s: full() falls off the end" % fi.site())
@@ -719,7 +725,7 @@ def check_waiter_fifo(ck):
 
 def run(ck):
     ck._orig_repo = getattr(ck, "_orig_repo", None) or ck.repo
-    ck.repo = normalized(ck.repo, NORM_MODULES)  # alias / named-boolean / temporary / setter-helper normalisation (vt/x_syncnorm.py)
+    ck.repo = normalized(ck.repo, NORM_MODULES, only=('tornado/queues.py', 'tornado/locks.py'))  # alias / named-boolean / temporary / setter-helper normalisation (vt/x_syncnorm.py)
     ck.rule("C35.order", "each queue class pairs its _put/_get container operations according to its discipline (append/popleft, heappush/heappop, append/pop()); nothing else touches the item container")
     ck.rule("C35.full", "full() == (maxsize > 0 and qsize >= maxsize) for all small maxsize/qsize (body folded exhaustively); the bound is fixed")
     ck.rule("C35.expired", "_consume_expired() precedes every look at the getter/putter queues in *_nowait; it removes only heads whose future is done(), from both queues, with no other effect")
